@@ -211,6 +211,14 @@ def _run(tape, clock):
     R.fill_outcomes(tape, run, spec)
     if tape.draw(6) == 5:
         spec.body.append(['raise', tape.choice(R.D.EXC_CLASSES)])
+    for o_ in spec.outputs:
+        if tape.draw(3) == 2:
+            o_.fail_on_missing, o_.default_result = False, ('default', o_.alias)     # an output whose result is optional in replay
+    if tape.draw(8) == 7:
+        # recording is switched off while the operation runs: what is sent afterwards cannot be captured, so no recording
+        # may claim to hold this run's outputs
+        spec.body.insert(tape.draw(len(spec.body) + 1), ['disable'])
+        run.probe('recording_switched_off_midway')
     nedits = tape.weighted([(2, 0), (5, 1), (1, 2), (1, 3)])
     # P' shares P's input specs (argument objects included): key stability for structurally equal but
     # separately built arguments is C06's business, not this property's
@@ -227,6 +235,10 @@ def _run(tape, clock):
     run.ev('pair', spec.describe(), edits, R.describe_steps(spec2.body), store.describe())
     try:
         rec = R.record_once(spec, run, store.open(), rseed=1, sent=True)
+        if rec.svc.disabled_at is not None and rec.svc.calls_begun > rec.svc.disabled_at:
+            run.check(not rec.saved, 'recorded_outputs_equal_sent', 'saved-although-calls-were-not-captured',
+                      'interceptions ran after recording was switched off (not captured), yet a recording of the run was saved as complete')
+            return run
         if not rec.saved:
             run.violate('recording_saved', 'not-saved', 'fault-free recording was not saved')
             return run
